@@ -49,6 +49,9 @@ def th_delta(rng, q):
     return Qf(w)
 
 
+# unsigned 32-bit fields over the full range
+U32 = [2 ** 31 - 1, 2 ** 31, 2 ** 31 + 1, 2 ** 32 - 1]
+
 MODS = ["flow", "iso", "hot", "cb", "sys", "out"]
 RES = {"flow": ["f1", "f2", "f3"], "iso": ["i1", "i2", "i3"], "hot": ["h1", "h2"], "cb": ["c1", "c2", "c3"], "out": ["o1", "o2"]}
 BIG = 2 ** 62
@@ -67,13 +70,13 @@ FIELDS = {
 # values a one-field delta may switch to (the generator never uses MinRequestAmount 2 or MaxAllowedRtMs >= 50: probe model)
 ALPHA = {
     "flow": dict(res=["f1", "f2", "f3"], tcs=[0, 1, 2], cb=[0, 1], th=[H(0), H(1), H(2), H(3), H(4), H(6), H(20), H(200)] + HUGE + FRAC, rel=[0, 1], ref=["_", "f9", "f8"],
-                 maxQ=[0, 500, 7], wp=[0, 1, 10], cf=[0, 2, 3, 5], st=[0, 1000] + STAT_ODD, lm=[1000, 2000], hm=[100, 200],
+                 maxQ=[0, 500, 7] + U32, wp=[0, 1, 10] + U32, cf=[0, 2, 3, 5] + U32, st=[0, 1000] + STAT_ODD + U32, lm=[1000, 2000], hm=[100, 200],
                  ml=[1024, 512], mh=[2048, 4096, 1 << 20], id=["_", "a", "b"]),
-    "iso": dict(res=["i1", "i2", "i3"], metric=[0, 1], th=[1, 2, 3, 10], id=["_", "a", "b"]),
+    "iso": dict(res=["i1", "i2", "i3"], metric=[0, 1], th=[1, 2, 3, 10] + U32, id=["_", "a", "b"]),
     "hot": dict(res=["h1", "h2"], metric=[0, 1], cb=[0, 1], pidx=[0, 1, -1], pkey=["_", "k", "k2"], th=[0, 1, 3, 100], maxQ=[0, 500, 7],
                 burst=[0, 2, 4], dur=[1, 5, 0], cap=[0, 100, 50], items=[0, 1, 2, 7], id=["_", "a", "b"]),
-    "cb": dict(res=["c1", "c2", "c3"], s=[0, 1, 2], retry=[1000, 5000], minReq=[0, 1, 100], stat=[1000] + STAT_ODD, bk=[0, 1, 2, 3],
-               maxRt=[0, 10, 20], th=[H(0), H(1), H(2), H(4), H(10)] + HUGE + FRAC, probe=[0, 1, 3], id=["_", "a", "b"]),
+    "cb": dict(res=["c1", "c2", "c3"], s=[0, 1, 2], retry=[1000, 5000] + U32, minReq=[0, 1, 100] + U32, stat=[1000] + STAT_ODD + U32, bk=[0, 1, 2, 3],
+               maxRt=[0, 10, 20], th=[H(0), H(1), H(2), H(4), H(10)] + HUGE + FRAC, probe=[0, 1, 3] + U32, id=["_", "a", "b"]),
     "sys": dict(metric=[0, 1, 2, 3, 4], th2=[0, 1, 2, 8, 9, 20], st=[-1, 0, 1], id=["_", "a", "b"]),
     "out": dict(pct=[0, 1, 2], rec=[0, 1000, 500], act=[0, 1], recyc=[0, 60], att=[0, 3]),
 }
@@ -228,7 +231,19 @@ def out_rule(rng, res, kind):
 POOL = {"flow": (flow_rule, 15), "iso": (iso_rule, 3), "hot": (hot_rule, 8), "cb": (cb_rule, 6), "sys": (sys_rule, 3), "out": (out_rule, 4)}
 
 
+U32_FIELDS = {"flow": ["maxQ", "wp", "cf", "st"], "iso": ["th"], "cb": ["retry", "stat", "minReq", "probe"]}
+
+
 def pick_rule(rng, mod, res, stats):
+    f, kind = _pick_rule(rng, mod, res, stats)
+    if f is not None and mod in U32_FIELDS and rng.random() < 0.06:
+        tgt = f if mod != "out" else None
+        if tgt is not None:
+            tgt[rng.choice(U32_FIELDS[mod])] = rng.choice(U32)
+    return f, kind
+
+
+def _pick_rule(rng, mod, res, stats):
     fn, ncl = POOL[mod]
     r = rng.random()
     if r < 0.10:
@@ -320,6 +335,15 @@ def gen_case(rng, cid, stats):
             kind, res, rules, touched = prev                                   # identical reload (fresh objects, same values)
             op = load_op(mod, kind, res, rules)
             kinds.append((mod, "again"))
+        elif r < 0.125 and mod != "out":
+            # a big whole-set load: 13..60 rules over few resources, so that the order within a resource shows in GetRules
+            few = names[:rng.choice([1, 2, 2])] if mod != "sys" else ["-"]
+            rules = [pick_rule(rng, mod, rng.choice(few), stats)[0] for _ in range(rng.randint(13, 60))]
+            op, touched = load_op(mod, "load", None, rules), (list(few) if mod != "sys" else [])
+            ops += [op, f"getord {mod}"]
+            last[mod] = ("load", None, rules, touched)
+            stats["big"] = stats.get("big", 0) + 1
+            kinds.append((mod, "big", len(rules)))
         elif r < 0.155 and mod in ("flow", "cb"):
             # fault episode: the custom generator errors / panics during a load; then it recovers and the caller retries the identical list
             g = rng.choice(["panic", "panic", "fail"])
@@ -456,6 +480,34 @@ def fault_corpus():
     return cases
 
 
+def big_corpus():
+    """whole-set loads of 20 and 45 valid rules over two resources (distinct thresholds, so the order within a resource is observable)"""
+    cases = []
+    bases = _bases()
+    for mod in ("flow", "iso", "hot", "cb", "sys"):
+        A = bases[mod][0]
+        for n in (20, 45):
+            rules = []
+            for i in range(n):
+                r = dict(A)
+                if mod == "sys":
+                    r.update(metric=[3, 1][i % 2], th2=8 + 2 * ((i * 7) % n))
+                else:
+                    r["res"] = RES[mod][i % 2]
+                    if mod in ("flow", "cb"):
+                        r["th"] = H(20 + 2 * ((i * 7) % n))
+                    elif mod == "iso":
+                        r["th"] = 5 + (i * 7) % n
+                    else:
+                        r["th"] = 5 + (i * 7) % n
+                rules.append(r)
+            ops = [load_op(mod, "load", None, rules), f"getord {mod}", f"get {mod}"]
+            if mod != "sys":
+                ops += [f"getres {mod} {RES[mod][0]}", f"getres {mod} {RES[mod][1]}"]
+            cases.append(Case(f"big-{mod}-{n}", ops, tags=("corpus", "big")))
+    return cases
+
+
 def dup_corpus():
     """duplicate identical rules across reload pairs, every controller-bearing module, both load paths"""
     cases = []
@@ -553,7 +605,7 @@ def corpus():
     for p in sorted(glob.glob(os.path.join(ROOT, "corpus", PROP, "*.ops"))):
         ops = [l.rstrip("\n") for l in open(p) if l.strip() and not l.startswith("#") and not l.startswith("case ")]
         res.append(Case(os.path.basename(p), ops, tags=("corpus",)))
-    return res + fault_corpus() + dup_corpus() + replace_corpus() + delta_corpus()
+    return res + big_corpus() + fault_corpus() + dup_corpus() + replace_corpus() + delta_corpus()
 
 
 def densify(ops, rng):
